@@ -215,6 +215,7 @@ func Start(t *testing.T, id string) *Session {
 	_ = os.MkdirAll(s.out, 0o755)
 	s.st.Status = "ok"
 	_ = flag.Set("rapid.nofailfile", "true")
+	_ = flag.Set("rapid.shrinktime", "12s")
 	if err := ref.SelfTest(false); err != nil {
 		s.Abort("reference self-test failed: " + err.Error())
 	}
